@@ -463,6 +463,21 @@ Section Buffered.
         end
     end.
 
+  (* d[e1]...[en] hands out the nested collection OBJECT; the method called on it loads the root once more.  That
+     load updates nested collections in place as long as their kind (dict / list) stays the same; where the kind
+     changed (or the element disappeared) a new object is put into the parent and the one handed out before is
+     detached: the method then works on the detached object's old data and its modification never reaches the root. *)
+  Definition kind_of (v : json) : N := match v with JObj _ => 1%N | JArr _ => 2%N | _ => 0%N end.
+  Fixpoint survives (p : path) (a b : json) : bool :=
+    match p with
+    | [] => true
+    | e :: p' =>
+        match get_at [e] a, get_at [e] b with
+        | Ok x, Ok y => N.eqb (kind_of x) (kind_of y) && survives p' x y
+        | _, _ => false
+        end
+    end.
+
   (* one document operation through collection h: what SyncedDict/SyncedList methods do *)
   (* synced_collections.errors.BufferedError is a RuntimeError *)
   Definition raised (st : cstate) (r : result json) : result json :=
@@ -478,13 +493,15 @@ Section Buffered.
         | (st0, m0', None) =>
             let '(st1, m1) := if op_loads o then load st0 h f m0' else (st0, m0') in
             if ferr_of st1 then (st1, Err ERuntimeError) else
-            match get_at p m1 with
+            let attached := is_read o || survives p m0' m1 in
+            match (if attached then get_at p m1 else get_at p m0') with
             | Err e => (st1, Err e)
             | Ok t =>
                 if is_read o then (st1, Ok t)
                 else
                   match sync_apply o t with
-                  | Ok (t', r) => let st2 := save st1 h f (set_at p t' m1) in (st2, raised st2 (Ok r))
+                  | Ok (t', r) =>
+                      let st2 := save st1 h f (if attached then set_at p t' m1 else m1) in (st2, raised st2 (Ok r))
                   | Err e =>
                       (* inside `with self._load_and_save:` — __exit__ saves whatever is in memory *)
                       match o with
@@ -569,11 +586,14 @@ Section Buffered.
   | JOp (j : N) (p : path) (o : dop)            (* j.document<p>.<o>                                    *)
   | JRekey (j f' : N)                           (* j.statepoint = sp_f'  (directory is renamed)          *)
   | JRemove (j : N)                             (* j.remove()                                            *)
+  | JMove (j : N)                               (* j.move(other_project): job n of the first project becomes
+                                                   job n of the second one (file ids 10 + n; 10 = its project document) *)
   | JInit (j : N)                               (* j.init()                                              *)
   | JEnter (c : option N) | JExit | JSetCap (c : N).
 
   (* file 0 is the project document: the project directory always exists and is not listed *)
-  Definition add_dir (ds : list N) (f : N) : list N := if N.eqb f 0 || nmem f ds then ds else ds ++ [f].
+  (* 10 is the project document of the second project *)
+  Definition add_dir (ds : list N) (f : N) : list N := if N.eqb f 0 || N.eqb f 10 || nmem f ds then ds else ds ++ [f].
   Definition del_dir (ds : list N) (f : N) : list N := filter (fun x => negb (N.eqb x f)) ds.
 
   (* Job.document / Project.document: create the collection on first use, after init() *)
@@ -639,6 +659,24 @@ Section Buffered.
               ({| core := c';
                   dirs := add_dir (del_dir (dirs js) f) f';
                   jobs := nset j (k', None) (jobs js); nexth := nexth js |}, Ok JNull)
+        end
+    | JMove j =>
+        match nlookup j (jobs js) with
+        | None => (js, Err EOther)
+        | Some (k, d) =>
+            let f := canon k in
+            let f' := (f + 10)%N in
+            if negb (nmem f (dirs js)) then (js, Err ERuntimeError)        (* "not initialized" *)
+            else if nmem f' (dirs js) then (js, Err EDestinationExists)
+            else
+              let c := core js in
+              let c' := with_dk (with_files c (move_key f f' (files c)))
+                          {| vers := move_key f f' (vers (dk c)); clock := clock (dk c);
+                             nowrite := f :: filter (fun x => negb (N.eqb x f')) (nowrite (dk c)); ferr := ferr (dk c); oerr := oerr (dk c) |} in
+              (* the object takes over the destination handle's attributes: its document handle is the
+                 destination's (none yet), spelled the way the destination project spells its path *)
+              ({| core := c'; dirs := add_dir (del_dir (dirs js) f) f';
+                  jobs := nset j (f', None) (jobs js); nexth := nexth js |}, Ok JNull)
         end
     | JRemove j =>
         match nlookup j (jobs js) with
